@@ -534,7 +534,8 @@ def pc_options(comp, phases, full=True, extras=True):
     k = comp["k"]
     if k in PHASE_LIST_KINDS:
         # a list naming only a phase the system does not define: the component is listed for no phase, i.e. inactive in all of them
-        return [None] + subs + ([["zz"]] if (full and extras) else [])
+        # ... and the dict form ({"a": True}): accepted by set_comp_phases for every kind, the keys are the active phases
+        return [None] + subs + ([["zz"]] if (full and extras) else []) + ([{names[0]: True}] if extras else [])
     if k in LOADS:
         key = {"PLoad": "pwr", "ILoad": "ii", "RLoad": "rs"}[k]
         out = [None] + [{p: _r(abs(comp["a"][key]) * _PHMULT[p]) for p in s} for s in subs]
